@@ -261,18 +261,24 @@ class DotProduct(Expression):
             }
             return [var_to_elem.get(v, Constant(0.0)) for v in variables]
 
-        # Case 2: x.dot(y) -> gradient is y[i] w.r.t. x[i], x[i] w.r.t. y[i]
-        left_lookup = {left_vars[i]: right_vars[i] for i in range(len(left_vars))}
-        right_lookup = {right_vars[i]: left_vars[i] for i in range(len(right_vars))}
+        # Case 2: x.dot(y) -> gradient is y[i] w.r.t. x[i], x[i] w.r.t. y[i].
+        # The two vectors may share variables (e.g. two slices of one vector),
+        # so every contribution to a variable is accumulated.
+        partners: dict[Variable, list[Expression]] = {}
+        for left_var, right_var in zip(left_vars, right_vars):
+            partners.setdefault(left_var, []).append(right_var)
+            partners.setdefault(right_var, []).append(left_var)
 
         result: list[Expression] = []
         for var in variables:
-            if var in left_lookup:
-                result.append(left_lookup[var])
-            elif var in right_lookup:
-                result.append(right_lookup[var])
-            else:
+            terms = partners.get(var)
+            if not terms:
                 result.append(Constant(0.0))
+                continue
+            total = terms[0]
+            for term in terms[1:]:
+                total = BinaryOp(total, term, "+")
+            result.append(total)
         return result
 
     def __repr__(self) -> str:
